@@ -378,7 +378,8 @@ def _handle_connection_body(vc, inductive):
             cancelled_at.append(kind)
             return vc.throw(asyncio.CancelledError, "closed by command")
         if kind == "read":
-            r = vc.case("read_result", ["data", "eof", "oserror"])
+            # one label per read: natively vc.case looks its choice up by label, so a repeated label would replay the last choice for every read
+            r = vc.case(f"read_result#{log.count('read')}", ["data", "eof", "oserror"])
             if r == "data":
                 d = vc.fresh_bytes("chunk")
                 vc.assume(len_(d) > 0)
